@@ -11,13 +11,18 @@ Obs == Ev.obs
 Src == Ev.src
 IdsOf(L) == LET S == {i \in 1..Len(Obs.ids) : Obs.ids[i][1] = L} IN IF S = {} THEN {} ELSE SeqToSet(Obs.ids[CHOOSE i \in S : TRUE][2])
 
-C07Env ==
+\* the closure clauses that need no knowledge of the source (also evaluated on forms of other generators and of the
+\* repository's test-suite: PROP = "C07free")
+C07Free ==
   /\ Check("itext_block_present_when_referenced", Len(Obs.refs) > 0 => Obs.present)
   /\ Check("every_reference_resolves_in_every_language",
            \A i \in 1..Len(Obs.refs) : \A j \in 1..Len(Obs.langs) : Obs.refs[i] \in IdsOf(Obs.langs[j]))
   /\ Check("same_ids_in_all_translations", \A i, j \in 1..Len(Obs.langs) : IdsOf(Obs.langs[i]) = IdsOf(Obs.langs[j]))
   /\ Check("no_language_twice", NoDupSeq(Obs.langs))
   /\ Check("no_id_twice", Len(Obs.dup_ids) = 0)
+  /\ Check("default_marked_once", Len(Obs.defaults) <= 1)
+C07Env ==
+  /\ C07Free
   /\ Check("only_default_language_marked", SeqToSet(Obs.defaults) \subseteq {DefLang(Src)})
   /\ Check("default_language_marked_when_present", DefLang(Src) \in SeqToSet(Obs.langs) => SeqToSet(Obs.defaults) = {DefLang(Src)})
   /\ Check("default_marked_once", Len(Obs.defaults) <= 1)
@@ -35,6 +40,7 @@ TInit == tid \in 1..Len(Traces) /\ l = 1 /\ pat = <<>> /\ dl = "" /\ refs = FALS
 TItext == /\ l <= Len(T) /\ Ev.ev = "itext"
           /\ Check("converted", Ev.status = "ok")
           /\ (Prop = "C07" => C07Env)
+          /\ (Prop = "C07free" => C07Free)
           /\ (Prop = "C08" => C08Env)
           /\ l' = l + 1 /\ UNCHANGED <<tid, ivars>>
 TSpec == TInit /\ [][TItext]_<<ivars, tid, l>>
